@@ -12,6 +12,7 @@ import os
 import shutil
 import tempfile
 
+from ..gen import families as F
 from ..gen import runners as G
 from ..ref import counters as M
 from ..ref import stats as S
@@ -28,7 +29,14 @@ RULE = (
     "default predicate, and a MeasurementTrackingBackend around each (calls alternate between the tracker "
     "and the shared wrapped runner); circuits on 0-5 qubits incl. operation-free and idle-qubit ones; a "
     "history is non-trivial when a rejected call lies between two successful ones; distinct = distinct "
-    "canonical history strings"
+    "canonical history strings; classes fresh / tracker_fresh: the same histories on a random rig, but over a "
+    "family of 4-8 near-identical circuits (each one mutation away from an earlier member: one parameter "
+    "changed - far, by 0.001, negated, +2pi -, one gate moved to another qubit / replaced by a gate of the same "
+    "arity, idle qubits added or removed, an operation appended / prepended / dropped / duplicated, two "
+    "neighbours swapped, an equal copy) whose circuit objects and per-circuit count sequences are built for "
+    "each call and dropped after it (about 20 % of the members stay alive instead; an index occurring twice "
+    "in a batch is the same object or two equal ones), so that addresses of dead circuits are reused by "
+    "different live ones (tallied) and every coarse view of a circuit has a collision inside one history"
 )
 ASSUMPTIONS = [
     "sample counts are Python ints or lists/tuples of Python ints (numpy integers are not ints for the library's own isinstance test and are outside the workload)",
@@ -36,6 +44,7 @@ ASSUMPTIONS = [
     "circuits containing MultiPhaseOperation are not sent through the tracker (to_dict cannot serialise them - a C05 matter)",
     "for the tracker only monotone counters, no movement on a rejected call and +1/+1 for a single run (inherited base-class path) are demanded; the growth on a successful batch is not specified by the property",
     "a valid request on which the harness runner itself fails (DeviceFailure) must count only the circuits that completed",
+    "a record's serialised circuit is compared with the library's to_dict of the circuit that was passed and, independently of the serialiser, read field by field (n_qubits, gate names, qubit indices, parameters parsed as floats to 1e-9 relative)",
     "run_batch_and_measure([], n<=0) is treated as an invalid request (the sample count is non-positive); set EMPTY_BATCH_NONPOSITIVE_IS_INVALID = False to exclude that corner",
 ]
 DECIDING = [
@@ -48,7 +57,7 @@ BRANCHES = [
     "base.run_batch_and_measure:reject_entry", "sim.run_and_measure:reject",
     "sim.get_wavefunction:native", "sim.get_wavefunction:nonnative",
 ]
-BUDGET = {"quick": (4, 20, 400), "thorough": (16, 200, 100000)}
+BUDGET = {"quick": (4, 24, 400), "thorough": (16, 200, 100000)}
 CASE_TIMEOUT = {"quick": 30, "thorough": 60}
 
 EMPTY_BATCH_NONPOSITIVE_IS_INVALID = True
@@ -57,7 +66,8 @@ _TMP = None
 
 
 def classes(tier):
-    return ["echo", "symbolic", "partial", "default_pred", "tracker_echo", "tracker_symbolic", "tracker_partial"]
+    return ["echo", "symbolic", "partial", "default_pred", "tracker_echo", "tracker_symbolic", "tracker_partial",
+            "tracker_fresh", "fresh"]
 
 
 # ----------------------------------------------------------------------------- helpers for the monitors
@@ -285,6 +295,37 @@ def _read_records(t):
     return data["raw-data"]
 
 
+def _record_reads_as(rc, circuit):
+    """reads a record's serialised circuit field by field (without the library's serialiser) against the
+    circuit that was passed: None when it names the same register, gates, qubits and parameters, else a text"""
+    if not isinstance(rc, dict):
+        return f"is {type(rc).__name__}"
+    if rc.get("n_qubits") != circuit.n_qubits:
+        return f"has n_qubits={rc.get('n_qubits')!r} for a register of {circuit.n_qubits}"
+    rops = rc.get("operations", [])
+    ops = list(circuit.operations)
+    if not isinstance(rops, list) or len(rops) != len(ops):
+        return f"lists {len(rops) if isinstance(rops, list) else rops!r} operations for {len(ops)}"
+    for i, (ro, o) in enumerate(zip(rops, ops)):
+        if G.op_name(o) == "MP" or not isinstance(ro, dict):
+            continue
+        g = ro.get("gate") or {}
+        if g.get("name") != G.op_name(o) or list(ro.get("qubit_indices", ())) != list(o.qubit_indices):
+            return f"operation #{i} is {g.get('name')}{ro.get('qubit_indices')} for {G.op_name(o)}{list(o.qubit_indices)}"
+        params = list(getattr(o.gate, "params", ()))
+        rp = list(g.get("params", ()))
+        if len(rp) != len(params):
+            return f"operation #{i} has {len(rp)} parameter(s) for {len(params)}"
+        for a, b in zip(rp, params):
+            try:
+                fa, fb = float(a), float(b)
+            except Exception:
+                continue
+            if abs(fa - fb) > 1e-9 * max(1.0, abs(fb)):
+                return f"operation #{i} ({G.op_name(o)}) has parameter {a!r} for {b!r}"
+    return None
+
+
 def _record_ok(mon, name, t, rec, circuit, meas, label=""):
     from orquestra.quantum.circuits import to_dict
 
@@ -299,6 +340,10 @@ def _record_ok(mon, name, t, rec, circuit, meas, label=""):
     exp_circ = json.loads(json.dumps(to_dict(circuit)))
     if rec.get("circuit") != exp_circ:
         mon.violation("tracker-record-circuit", f"{name}{label}: record circuit {rec.get('circuit')!r} is not the serialised {_cdesc(circuit)}")
+        return False
+    bad = _record_reads_as(rec.get("circuit"), circuit)
+    if bad:
+        mon.violation("tracker-record-circuit", f"{name}{label}: record circuit {bad}: {rec.get('circuit')!r} recorded for {_cdesc(circuit)}"[:600])
         return False
     if t.record_bitstrings:
         if rec.get("bitstrings") != [list(b) for b in bs]:
@@ -666,6 +711,10 @@ def _post_tdist(mon, call):
     if not ok:
         mon.violation("tracker-record-distribution", f"{name}: {what}: file records {recs!r}"[:600])
         return
+    bad = _record_reads_as(recs[0].get("circuit"), circuit)
+    if bad:
+        mon.violation("tracker-record-distribution", f"{name}: {what}: record circuit {bad}: {recs[0].get('circuit')!r}"[:600])
+        return
     mon.ok(name)
 
 
@@ -803,6 +852,40 @@ def _nontrivial(calls):
     return False
 
 
+def _materialise(ctx, rng, pool, circuits, cidx, dead):
+    """fresh classes: the circuits of one call are built for this call (the ones of the previous calls are
+    gone); an index that occurs twice in a batch is the same object or two equal ones"""
+    out = []
+    made = {}
+    for i in cidx:
+        if circuits[i] is not None:
+            out.append(circuits[i])
+            ctx.mon.note("fresh:long-lived-circuit-used")
+            continue
+        if i in made and rng.random() < 0.5:
+            out.append(made[i])
+            continue
+        c = G.build_circuit(pool[i])
+        was = dead.pop(id(c), None)
+        if was is not None:
+            ctx.mon.note("fresh:address-of-a-dropped-circuit-reused-by-" + ("an-equal-one" if pool[was] == pool[i] else "a-different-one"))
+        made[i] = c
+        out.append(c)
+    return out
+
+
+def _forget(r):
+    """fresh classes: drop the references the harness' own logs hold to circuits and results of finished calls
+    (the monitors only ever read the events of the call in progress)"""
+    for e in G._log(r):
+        if e.get("circuit") is not None:
+            e["circuit"] = None
+            e.pop("result", None)
+    ret = getattr(r, "_rv_ret", None)
+    if ret:
+        ret.clear()
+
+
 def run_case(ctx):
     from orquestra.quantum.operators import PauliSum, PauliTerm
     from orquestra.quantum.runners.symbolic_simulator import SymbolicSimulator
@@ -814,6 +897,9 @@ def run_case(ctx):
     cls = ctx.cls
     tracked = cls.startswith("tracker_")
     base = cls[len("tracker_"):] if tracked else cls
+    fresh = base == "fresh"  # short-lived, near-identical circuits (see _fresh_pool)
+    if fresh:
+        base = rng.choice(["echo", "symbolic", "symbolic", "partial", "default_pred"])
     # ---- the rig
     native = None
     if base == "echo":
@@ -835,7 +921,12 @@ def run_case(ctx):
     allow_mp = not tracked or rng.random() < 0.5  # MP circuits only ever go to the raw runner
     # ---- circuits
     pool = [{"n": rng.choice([0, 0, 1, 3]), "ops": []}]  # operation-free circuit (possibly with idle qubits)
-    for _ in range(rng.randint(3, 6)):
+    how = None
+    if fresh:
+        fam, how = F.near_family(rng, rng.randint(4, 8), quantum=sim and rng.random() < 0.3)
+        pool += fam
+        how = ["empty"] + how
+    for _ in range(0 if fresh else rng.randint(3, 6)):
         if sim and rng.random() < 0.5:
             s = G.structured_spec(rng, native if native not in ("all", "default") else frozenset(n for n in G.ALL_NAMES if n != "MP"),
                                   allow_mp=allow_mp)
@@ -849,8 +940,14 @@ def run_case(ctx):
     ncalls = rng.randint(20, 60) if ctx.quick else rng.randint(20, 200)
     targets = ["T", "T", "R"] if tracked else ["R"]
     calls = [_plan_call(rng, targets, pool, sim, can_fail=(base == "echo")) for _ in range(ncalls)]
+    live_idx, drop_early = (), False
+    if fresh:
+        live_idx = tuple(i for i in range(len(pool)) if rng.random() < 0.2)  # these stay alive for the whole history
+        drop_early = rng.random() < 0.5  # drop a call's circuits before / after the next call's circuits are built
     desc = (f"{'Tracker(bits=%s) of ' % record_bits if tracked else ''}{rigdesc} circuits="
-            + " ".join(f"c{i}={G.spec_str(s)}" for i, s in enumerate(pool)) + " :: " + " ".join(_call_str(c) for c in calls))
+            + " ".join(f"c{i}={G.spec_str(s)}" for i, s in enumerate(pool))
+            + (f" fresh(derived={','.join(how)};live={list(live_idx)};drop={'early' if drop_early else 'late'})" if fresh else "")
+            + " :: " + " ".join(_call_str(c) for c in calls))
     ctx.describe(desc, _nontrivial(calls))
 
     # ---- build
@@ -862,7 +959,8 @@ def run_case(ctx):
         runner = Partial(native, seed=seed)
     else:
         runner = DefaultSim(seed=seed)
-    circuits = [G.build_circuit(s) for s in pool]
+    circuits = [G.build_circuit(s) if not fresh or i in live_idx else None for i, s in enumerate(pool)]
+    dead = {}  # fresh: address -> pool index of the last dropped circuit that lived there
     tracker = None
     path = None
     if tracked:
@@ -895,23 +993,29 @@ def run_case(ctx):
     try:
         for step, call in enumerate(calls):
             tgt = tracker if call["tgt"] == "T" else runner
-            cs = [circuits[i] for i in call["cidx"]]
+            if fresh:
+                cs = _materialise(ctx, rng, pool, circuits, call["cidx"], dead)
+            else:
+                cs = [circuits[i] for i in call["cidx"]]
             specs = [pool[i] for i in call["cidx"]]
+            n_arg = call["n"]
+            if fresh and isinstance(n_arg, (list, tuple)):  # the per-circuit counts are short-lived objects too
+                n_arg = list(n_arg) if isinstance(n_arg, list) else tuple(list(n_arg))
             if call["fail"]:
                 runner.fail_in = call["fail"]
             exc = None
             res = None
             try:
                 if call["op"] == "single":
-                    res = tgt.run_and_measure(cs[0], call["n"]) if rng.random() < 0.7 else tgt.run_and_measure(circuit=cs[0], n_samples=call["n"])
+                    res = tgt.run_and_measure(cs[0], n_arg) if rng.random() < 0.7 else tgt.run_and_measure(circuit=cs[0], n_samples=n_arg)
                 elif call["op"] == "batch":
                     arg = cs if rng.random() < 0.7 else tuple(cs)
-                    res = tgt.run_batch_and_measure(arg, call["n"])
+                    res = tgt.run_batch_and_measure(arg, n_arg)
                 elif call["op"] == "dist":
-                    if call["n"] is None and sim and call["tgt"] == "R" and rng.random() < 0.5:
+                    if n_arg is None and sim and call["tgt"] == "R" and rng.random() < 0.5:
                         res = tgt.get_measurement_outcome_distribution(cs[0])
                     else:
-                        res = tgt.get_measurement_outcome_distribution(cs[0], call["n"])
+                        res = tgt.get_measurement_outcome_distribution(cs[0], n_arg)
                 elif call["op"] == "wf":
                     res = tgt.get_wavefunction(cs[0])
                 else:
@@ -956,6 +1060,16 @@ def run_case(ctx):
                     model_r.exact = False
                     model_t.exact = False
             observe(step, call)
+            if fresh:
+                # nothing of the harness may keep a finished call's circuits or results alive
+                for i, c in zip(call["cidx"], cs):
+                    if circuits[i] is None:
+                        dead[id(c)] = i
+                _forget(runner)
+                if tracker is not None:
+                    _forget(tracker)
+                if drop_early:
+                    cs = arg = res = exc = c = n_arg = None
     finally:
         if path and os.path.exists(path):
             os.remove(path)
